@@ -442,6 +442,33 @@ func c04Copies(c *core.Ctx, lay string, t reflect.Type, shape []int) {
 			return dst, op.M, op.D.CopyTo(dst)
 		}},
 	}
+	// destinations that are not plain fresh tensors: a pending transpose, the clone of a stepped slice (owns its storage,
+	// keeps the strides), column-major - the copy has to arrive element by element (or be refused)
+	for _, dl := range []string{gen.LT, gen.LCSS, gen.LF} {
+		dl := dl
+		mkDst := func() *tensor.Dense {
+			dop, err := gen.Build(model.New(t, shape, gen.Canary(t, model.Size(shape), 77)), dl, c.Rng)
+			if err != nil || dop.Layout != dl {
+				return nil
+			}
+			return dop.D
+		}
+		copies = append(copies,
+			c04Copy{"tensor.Copy->" + dl, func(op *gen.Operand) (*tensor.Dense, *model.ND, error) {
+				dst := mkDst()
+				if dst == nil {
+					return nil, nil, nil
+				}
+				return dst, op.M, tensor.Copy(dst, op.D)
+			}},
+			c04Copy{"CopyTo->" + dl, func(op *gen.Operand) (*tensor.Dense, *model.ND, error) {
+				dst := mkDst()
+				if dst == nil {
+					return nil, nil, nil
+				}
+				return dst, op.M, op.D.CopyTo(dst)
+			}})
+	}
 	if perm != nil {
 		copies = append(copies,
 			c04Copy{"SafeT", func(op *gen.Operand) (*tensor.Dense, *model.ND, error) {
